@@ -46,7 +46,34 @@ HELPER_SOURCE = (
     '        """\n'
     '        >>> print("imported method doctest")\n'
     '        imported method doctest\n'
-    '        """\n')
+    '        """\n'
+    '\n\n'
+    'import functools\n'
+    '\n\n'
+    'def ext_deco(func):\n'
+    '    """\n'
+    '    A functools.wraps decorator that lives in ANOTHER module: the wrapper gets the decorated function\'s\n'
+    '    __module__, __name__ and __doc__, but its __globals__ are this module\'s.\n'
+    '\n'
+    '    >>> print("doctest of the imported decorator")\n'
+    '    doctest of the imported decorator\n'
+    '    """\n'
+    '    @functools.wraps(func)\n'
+    '    def ext_wrapper(*args, **kwargs):\n'
+    '        return func(*args, **kwargs)\n'
+    '    return ext_wrapper\n'
+    '\n\n'
+    'def ext_deco_factory(n):\n'
+    '    return ext_deco\n'
+    '\n\n'
+    'def ext_same(func):\n'
+    '    """returns the very same function object"""\n'
+    '    func.marked = True\n'
+    '    return func\n'
+    '\n\n'
+    'def ext_class_deco(cls):\n'
+    '    cls.marked = True\n'
+    '    return cls\n')
 
 
 class Block(object):
@@ -91,6 +118,7 @@ class GenModule(object):
         self.fragment = True
         self.features = set()
         self.fail = None     # injected failure: dict(callname, kind, line, stmt)
+        self.ignored_lines = []   # file lines of prompts under a freeform skip header: part of no doctest
 
     @property
     def source(self):
@@ -148,10 +176,13 @@ class _Gen(object):
         or 'want')"""
         r = self.rng
         kind = r.choice(['exc-multi', 'exc-called', 'gotwant', 'exc-simple', 'exc-helper', 'gotwant-multi',
-                         'exc-finally', 'exc-reraise', 'exc-finally-loop'])
+                         'exc-finally', 'exc-reraise', 'exc-finally-loop', 'badrepr'])
         k = r.randint(0, 99)
         # the raising statement inside try/finally or try/except...raise: the frame goes on executing the cleanup
         # suite while the exception unwinds, so frame.f_lineno differs from the traceback entry's tb_lineno
+        if kind == 'badrepr':
+            # the value of the last expression cannot be rendered: reported at the expression itself
+            return ['class B%d(object):' % k, '    def __repr__(self):', '        raise RuntimeError(%d)' % k, 'B%d()' % k], ['something'], kind, 3
         if kind == 'exc-finally':
             return ['try:', '    v%d = %d // 0' % (k, k), 'finally:', '    w%d = 2' % k, '    u%d = 3' % k], [], kind, 1
         if kind == 'exc-reraise':
@@ -235,6 +266,8 @@ class _Gen(object):
                 m.emit(pad + 'Trailing prose at the base indentation.')
         elif d.layout == 'freeform':
             ngroups = r.choice([1, 1, 2, 3])
+            if r.random() < 0.15:
+                self.emit_ignored_section(d, pad, q)
             for g in range(ngroups):
                 if g > 0:
                     m.emit(pad + 'Some prose between the groups.')
@@ -244,6 +277,8 @@ class _Gen(object):
                 for _ in range(r.randint(1, 3)):
                     self.emit_stmt(d, None, pad + extra, callname, q)
                 m.emit('')      # a want must not run into the prose that follows
+                if r.random() < 0.15:
+                    self.emit_ignored_section(d, pad, q)
         else:
             m.emit(pad + 'No examples here, only text: a >> b, c > d.')
         # closing
@@ -265,6 +300,26 @@ class _Gen(object):
             d.end = m.emit(pad + 'Last words.' + d.quote)
             m.features.add('doc:shared-close')
         return d
+
+    def emit_ignored_section(self, d, pad, q):
+        """a header that DISABLES the doctests under it in freeform reading (`DisableDoctest:`, `Script:` ...): its
+        prompts (two parts at least: a want separates them) belong to no doctest; a blank line ends the section"""
+        r = self.rng
+        m = self.m
+        m.features.add('freeform:ignored-section')
+        d.ignored = True
+        head = r.choice(['DisableDoctest:', 'DisableExample:', 'SkipDoctest:', 'Ignore:', 'Script:', 'Benchmark:', 'Sympy:',
+                         'script:', 'IGNORE:', 'Some words, then Script:'])
+        m.emit(pad + head)
+        inner = pad + '    '
+        k = r.randint(0, 99)
+        m.ignored_lines.append(m.emit(inner + '>>> print(%sign%d%s)' % (q, k, q)))
+        m.emit(inner + 'ign%d' % k)
+        m.ignored_lines.append(m.emit(inner + '>>> ign%d = %d' % (k, k)))
+        if r.random() < 0.5:
+            m.ignored_lines.append(m.emit(inner + '>>> ign%d + 1' % k))
+            m.emit(inner + '%d' % (k + 1))
+        m.emit('')
 
     def emit_block(self, d, pad, callname, q):
         r = self.rng
@@ -338,6 +393,13 @@ class _Gen(object):
             if r.random() < 0.2:
                 out.append('@deco')
             self.m.features.add('decorated')
+        if r.random() < 0.3:
+            # decorators imported from the helper module: wraps-style wrapper (foreign __globals__, own __module__),
+            # a factory of it, the identity decorator, the same through the module object
+            d = r.choice(['@ext_deco', '@ext_deco', '@ext_deco_factory(2)', '@ext_same', '@xh.ext_deco', '@edeco'])
+            out.insert(r.randint(0, len(out)), d)
+            self.m.features.add('decorated:imported')
+            self.m.features.add('decorated:imported:' + d.lstrip('@').split('(')[0])
         return out
 
     def emit_body_filler(self, pad):
@@ -458,8 +520,8 @@ class _Gen(object):
         m = self.m
         pad = ' ' * indent
         name = self.name('C')
-        if r.random() < 0.2:
-            m.emit(pad + '@class_deco')
+        if r.random() < 0.3:
+            m.emit(pad + r.choice(['@class_deco', '@ext_class_deco']))
             m.features.add('class-decorated')
         m.emit(pad + 'class %s(object):' % name)
         d = self.emit_docstring(indent + 4, name)
@@ -480,9 +542,21 @@ class _Gen(object):
             elif c < 0.92:
                 m.features.add('nested-class')
                 self.emit_hidden_def(indent + 4, name, only_class=True)
-            else:
+            elif c < 0.96:
                 m.emit(pad + '    attr%d = (1,' % r.randint(0, 9))
                 m.emit(pad + '             2)')
+            else:
+                # a class attribute that is a function (with doctests) of ANOTHER module: not a method of this class
+                m.features.add('borrowed-member')
+                k = self.name('borrowed')
+                m.emit(pad + '    %s = %s' % (k, r.choice(['xh.ext_func', 'staticmethod(xh.ext_func)', 'xh.ExtClass.meth'])))
+                m.hidden.append(name + '.' + k)
+        if r.random() < 0.25:
+            # a module-level INSTANCE of the class: has the class docstring and __module__, but is no callable definition
+            m.features.add('instance')
+            k = self.name('INSTANCE')
+            m.emit(pad + '%s = %s()' % (k, name))
+            m.hidden.append(k)
         return name
 
     def emit_wrapper(self, indent, emit_inner, executed=True):
@@ -619,6 +693,9 @@ class _Gen(object):
                 m.features.add('module-doc')
         m.emit('import functools')
         m.emit('import contextlib')
+        m.emit('from %s import ext_deco, ext_deco_factory, ext_same, ext_class_deco' % HELPER_NAME)
+        m.emit('from %s import ext_deco as edeco' % HELPER_NAME)
+        m.emit('import %s as xh' % HELPER_NAME)
         m.emit('')
         m.emit('FLAG = False')
         m.emit('CTX = contextlib.suppress(KeyError)')
@@ -703,6 +780,9 @@ def gen_package_plan(rng, depth=3):
         if level < depth:
             for i in range(rng.randint(0, 2)):
                 d[rng.choice(['sub%d' % i, 'pkg%d' % i, 'dir.py', '__pycache__'])] = mk(level + 1)
+            subs = [k for k, v in d.items() if isinstance(v, dict)]
+            if subs and rng.random() < 0.2:
+                d['linked%d' % level] = ('link', rng.choice(subs))     # a symlink to a sibling directory
         return d
     return mk(0)
 
@@ -720,6 +800,8 @@ def expected_package_files(plan, exts=('.py',)):
             if v is None:
                 if os.path.splitext(name)[1] in exts and name != '__init__.py':
                     out.append(path + (name,))
+            elif isinstance(v, (tuple, list)):
+                walk(d[v[1]], path + (name,))       # a symlinked directory is part of the tree like its target
             else:
                 walk(v, path + (name,))
     walk(plan, ())
